@@ -3,7 +3,7 @@
 # usage: tools/repotest.sh [repo_dir]   (default /repo)
 R=${1:-/repo}
 OUT=$(mktemp /tmp/junit.XXXXXX.xml)
-cd "$R" && env -u XKNX_VERIF /venv/bin/python -m pytest -q -p no:cacheprovider --timeout=900 -n 8 --junitxml="$OUT" >/dev/null 2>&1
+cd "$R" && env -u XKNX_VERIF PYTHONPATH="$R" /venv/bin/python -m pytest -q -p no:cacheprovider --timeout=900 -n 8 --junitxml="$OUT" >/dev/null 2>&1
 /venv/bin/python - "$OUT" <<'PY'
 import json,sys,xml.etree.ElementTree as ET
 sp=set(json.load(open('/root/.vp/BASELINE.json'))['stable_pass'])
